@@ -160,3 +160,55 @@ Theorem C15_transitive_angular :
   ~ det xa ya oax oay obx oby == 0 -> ~ det xb yb obx oby ocx ocy == 0 ->
   cmp_events st a b = Lt -> cmp_events st b c = Lt -> cmp_events st a c = Lt.
 Proof. exact cmp_events_trans_angular. Qed.
+
+(** third clause: for two non-crossing, non-collinear segments with overlapping x-extent the
+    segment order is the vertical order (exact instance; [old] = the segment whose left event
+    comes first, not vertical; [NC]: no point in the relative interior of both is common; [HV]:
+    when [new] is vertical the right end of [old] is not in its relative interior).  [P] is the
+    point of [old] with parameter [s], [Q] the point of [new] with parameter [t], same abscissa:
+    [Lt] ("old below new") implies P.y <= Q.y, [Gt] implies Q.y <= P.y. *)
+From GB Require Import IntersectProofs SegOrderQ.
+Theorem C15_segment_order_is_vertical_order :
+  forall (st : store NQ) (old new oldr newr : eid) (olx oly orx ory nlx nly nrx nry : Q),
+  e_other (getE st old) = Some oldr -> e_other (getE st new) = Some newr ->
+  e_left (getE st old) = true ->
+  e_point (getE st old) = fpt olx oly -> e_point (getE st oldr) = fpt orx ory ->
+  e_point (getE st new) = fpt nlx nly -> e_point (getE st newr) = fpt nrx nry ->
+  olx < orx -> nlx < nrx \/ nlx == nrx /\ nly < nry ->
+  forall s t : Q,
+  old <> new -> is_before st old new = true ->
+  ~ (sa olx oly orx ory nlx nly == 0 /\ sb olx oly orx ory nrx nry == 0) ->
+  NC olx oly orx ory nlx nly nrx nry -> HV orx ory nlx nly nrx nry ->
+  0 <= s <= 1 -> 0 <= t <= 1 -> olx + s * (orx - olx) == nx nlx nrx t ->
+  match compare_segments st old new with
+  | Eq => False
+  | Lt => oly + s * (ory - oly) <= ny nly nry t
+  | Gt => ny nly nry t <= oly + s * (ory - oly)
+  end.
+Proof. exact compare_segments_vertical_order. Qed.
+
+Theorem C15_segment_order_is_vertical_order_swapped :
+  forall (st : store NQ) (old new oldr newr : eid) (olx oly orx ory nlx nly nrx nry : Q),
+  e_other (getE st old) = Some oldr -> e_other (getE st new) = Some newr ->
+  e_left (getE st old) = true ->
+  e_point (getE st old) = fpt olx oly -> e_point (getE st oldr) = fpt orx ory ->
+  e_point (getE st new) = fpt nlx nly -> e_point (getE st newr) = fpt nrx nry ->
+  olx < orx -> nlx < nrx \/ nlx == nrx /\ nly < nry ->
+  forall s t : Q,
+  old <> new -> is_before st new old = false -> is_before st old new = true ->
+  ~ (sa olx oly orx ory nlx nly == 0 /\ sb olx oly orx ory nrx nry == 0) ->
+  NC olx oly orx ory nlx nly nrx nry -> HV orx ory nlx nly nrx nry ->
+  0 <= s <= 1 -> 0 <= t <= 1 -> olx + s * (orx - olx) == nx nlx nrx t ->
+  match compare_segments st new old with
+  | Eq => False
+  | Lt => ny nly nry t <= oly + s * (ory - oly)
+  | Gt => oly + s * (ory - oly) <= ny nly nry t
+  end.
+Proof. exact compare_segments_vertical_order_swapped. Qed.
+
+Theorem C15_vertical_order_example :
+  compare_segments ex_store 1%positive 3%positive = Lt /\
+  is_before ex_store 1%positive 3%positive = true /\
+  ~ (sa 0 0 4 0 1 1 == 0 /\ sb 0 0 4 0 3 2 == 0) /\
+  NC 0 0 4 0 1 1 3 2 /\ HV 4 0 1 1 3 2.
+Proof. exact vertical_order_example. Qed.
